@@ -101,9 +101,13 @@ def _oracle(w: Any) -> list[dict]:
     return out
 
 
+HIST_TRACE = ["state_backend/base_state_backend.py", "state_backend/mem_state_backend.py"]
+
+
 def run(seed: int, params: dict, replay: dict | None = None) -> dict:
     if params["mode"] == "poll":
-        res = c02.run(seed, {"stack": params["stack"]}, replay, extra_oracle=_oracle, lazy_history=(seed % 3 != 0))
+        # in memory the history writers are pre-empted inside the state backend too (line level)
+        res = c02.run(seed, {"stack": params["stack"]}, replay, extra_oracle=_oracle, lazy_history=(seed % 3 != 0), trace_extra=HIST_TRACE)
         st = res["stats"]
         res["nontrivial"] = bool(st.get("probe.late_writer") or st.get("probe.kill") or st.get("probe.recovery") or st.get("probe.reroute"))
         return res
